@@ -885,10 +885,39 @@ def r13(ctx):
     sel_ok = [c for c in rt if predicate_body(task, c) is not None and compares_identity(predicate_body(task, c))]
     kept = any(c.matches(r'::partition$') for c in sel_ok) and len(hf) >= 2
     warned = bool(task.calls(r'::warn$|::err$')) or any(predicate_body(task, c).calls(r'::warn$|::err$') for c in sel_ok)
+    if not warned:
+        # the task has no log: it hands the paths it leaves out to a shared list (a captured Arc<Mutex<Vec<..>>>), and the function that owns the
+        # list reports them when the hashing is over
+        handed = set()
+        for k in task.calls(r'Vec<.*>::(extend|push|append)$|Vec::<T, A>::(extend|push|append)$|Extend<.*>>::extend$'):
+            handed |= {n for _, n in backslice(task, [k.args[0]]).upvars}
+        core_ = rehash_core(lib)
+        if handed and core_ is not None:
+            reported = [k for k in core_.calls(r'::warn$|::err$')]
+            owns = any(core_.local_name(i) and any(core_.local_name(i).startswith(h) or h.startswith(core_.local_name(i)) for h in handed) and 'Mutex' in core_.local_ty(i) for i in range(len(core_.locals)))
+            warned = bool(reported) and owns
     if sel_ok:
-        ctx.check(kept or warned, rule, task.path + '|replaced-path-not-dropped', sel_ok[0].where(), 'the paths that lead to another file now are hashed on their own (second invocation of the hash function)',
+        ctx.check(kept or warned, rule, task.path + '|replaced-path-not-dropped', sel_ok[0].where(), 'the paths that lead to another file now are hashed on their own, or left out with a warning (%s)' % ('hashed' if kept else 'reported by the function that owns the list the task hands them to'),
                   'a path that was re-created since the scan (atomic save: write a new file, rename it over the name) is removed from the work item without a word and never hashed: it exists, is readable, '
                   'was selected by the scan and may be byte-identical to the others - the report lists {a, c} and no message mentions b')
+    # ... but not with what is known about the file it WAS: the suffix stage combines the new hash with the old one (the prefix hash), so a replaced path
+    # hashed "on its own" with its former prefix hash gets a key no file can share and vanishes; and its group of origin may have been passed by a stage
+    # whose groups the result cannot rejoin.  Either it is left out (with the warning above), or its history is recomputed - never inherited
+    if sel_ok and len(hf) >= 2:
+        part = [c for c in sel_ok if c.matches(r'::partition$')]
+        stale = None
+        for h in hf[1:]:
+            # the tuple argument (&mut file_info, old_hash): does old_hash derive from the file_hash field of an element of the `other` half?
+            asl = backslice(task, h.args[1:])
+            if 'file_hash' in asl.field_names() and h.bb in task.reachable(part[0].bb if part else 0):
+                first = hf[0]
+                # the first invocation legitimately uses fg[0].file_hash: tell them apart by reachability order
+                if h.bb != first.bb and first.bb not in task.reachable(h.bb):
+                    stale = h
+        ctx.check(stale is None, rule, task.path + '|replaced-path-has-no-history', (stale.where() if stale else hf[0].where()), 'a replaced path is not hashed with the hash its former file had',
+                  'a path that leads to another file now is hashed on its own, but the hash function is handed the hash of the group it came from - the PREFIX hash of the file it used to be: the suffix '
+                  'stage combines the two (prefix of the old file || suffix of the new one) into a key that no other file can have, the path ends up alone, the stage\'s filter removes it and nothing is '
+                  'logged - t/b, a copy of t/x and t/y for the last 1.7 s of the run, is missing from the report')
     # the groups that skip the hashing altogether (all their paths are one file: the pre-filter of the stages asks for unique_count() > 1) are
     # the purest case of "never looked at again": they are examined too - after the hashing, close to the report - and regrouped when a path has moved on
     core = rehash_core(lib)
